@@ -168,7 +168,7 @@ pub fn run(ctx: &Ctx) -> i32 {
     // second box: more symbols and more blocks at small T
     cfgs.extend(box_configs(&[1, 2, 3, 4, 6], 14, 7, 8));
     // third box: wide symbols (up to 64 sub-blocks), up to 16 symbols and 9 blocks
-    let wide_ts: Vec<u16> = if ctx.quick() { vec![12, 15, 16, 20, 24, 30, 32] } else { vec![12, 13, 14, 15, 16, 18, 20, 21, 24, 27, 28, 30, 32, 36, 40, 48, 60, 64] };
+    let wide_ts: Vec<u16> = if ctx.quick() { vec![12, 13, 15, 16, 20, 21, 24, 27, 30, 32, 36, 48, 64] } else { vec![12, 13, 14, 15, 16, 18, 20, 21, 24, 27, 28, 30, 32, 36, 40, 48, 60, 64] };
     cfgs.extend(wide_configs(&wide_ts, if ctx.quick() { 12 } else { 16 }, if ctx.quick() { 7 } else { 9 }));
     cfgs.sort_unstable();
     cfgs.dedup();
